@@ -1223,6 +1223,50 @@ impl<'a> World<'a> {
         self.expect_no_error("borrowed-entry", ArgClass::Valid);
     }
 
+    /// The error slot holds the message of the LATEST failure: a failure left unread must be overwritten by the
+    /// next one. The expected text is the library's own message for the same failing call made in isolation.
+    unsafe fn op_error_overwrite(&mut self) {
+        let _ = take_err();
+        // failing call B in isolation
+        let b = |w: &mut World| -> Option<String> {
+            let _ = w;
+            let r = haystack_value_get_list_len(null_mut());
+            debug_assert_eq!(r, usize::MAX);
+            take_err()
+        };
+        let mb = b(self);
+        // failing call A, left unread: a different failure with a different message
+        let bad = cstr("[1,2");
+        let a = haystack_value_from_zinc_string(bad.as_ptr());
+        if let Some(v) = a {
+            haystack_value_destroy(Box::into_raw(v));
+        }
+        let ma_probe = {
+            // what A alone reports (read it, then repeat A unread)
+            let m = take_err();
+            let a2 = haystack_value_from_zinc_string(bad.as_ptr());
+            if let Some(v) = a2 {
+                haystack_value_destroy(Box::into_raw(v));
+            }
+            m
+        };
+        // now B again: its message must replace A's unread one
+        let r = haystack_value_get_list_len(null_mut());
+        let got = take_err();
+        self.log.push("error-overwrite: failing A unread, failing B, read".into());
+        if r != usize::MAX {
+            self.fail("get_list_len", ArgClass::Null, "no-sentinel", format!("{r}"));
+        }
+        if mb.is_none() || got.is_none() {
+            self.fail("last_error_message", ArgClass::Null, "failure-without-error-message", format!("isolated {mb:?}, after unread failure {got:?}"));
+        } else if got != mb && ma_probe != mb {
+            self.fail("last_error_message", ArgClass::Valid, "stale-message-after-unread-failure", format!("after an unread failure ({ma_probe:?}) the next failure's message is {got:?}, the same call alone reports {mb:?}"));
+        }
+        if let Some(m) = take_err() {
+            self.fail("last_error_message", ArgClass::Valid, "error-not-cleared", m);
+        }
+    }
+
     unsafe fn op_destroy(&mut self) {
         if self.slots.len() > 6 && self.rng.chance(2, 3) {
             let i = self.rng.below(self.slots.len());
@@ -1241,7 +1285,8 @@ impl<'a> World<'a> {
     pub unsafe fn step(&mut self) {
         self.ops += 1;
         let before = self.ctx.violations.len();
-        match self.rng.below(21) {
+        match self.rng.below(22) {
+            21 => self.op_error_overwrite(),
             20 => self.op_borrowed(),
             0..=3 => self.op_make(),
             4 => self.op_predicates(),
